@@ -89,6 +89,34 @@ pub fn parse<'a, I: Iterator<Item = &'a str>>(t: &mut I) -> Built {
             }
             a
         }
+        "pushback" => {
+            // the queue A ++ B assembled through the VecDeque interface alone, starting from the empty product
+            let a = sub!(t);
+            let b = sub!(t);
+            let mut q = qvnt::prelude::op::id();
+            for s in a.iter().chain(b.iter()) {
+                q.push_back(s.clone());
+            }
+            q
+        }
+        "wrapped" => {
+            // A ++ B whose ring buffer has a moved head: an element is pushed to the front and taken off again, the
+            // queue is rotated forth and back, and its last element is re-appended after a pop
+            let a = sub!(t);
+            let b = sub!(t);
+            let mut q = a * b;
+            if let Some(first) = q.front().cloned() {
+                q.push_front(first);
+                q.pop_front();
+                let k = q.len() / 2;
+                q.rotate_left(k);
+                q.rotate_right(k);
+                let last = q.pop_back().unwrap();
+                q.push_front(last);
+                q.rotate_left(1);
+            }
+            q
+        }
         "pushfront" => {
             // the queue A ++ B assembled from the back: start from B and push A's elements to the front in
             // reverse order (Deref<VecDeque>::push_front; the ring buffer wraps around)
